@@ -1,4 +1,4 @@
-From Verif Require Import Common Json JsonText C12_Model C12_Spec C12_ConcModel C12_ConcSpec C12_FsModel C12_FsSpec C12_PlaceModel C12_PlaceSpec.
+From Verif Require Import Common Json JsonText C12_Model C12_Spec C12_ConcModel C12_ConcSpec C12_FsModel C12_FsSpec C12_PlaceModel C12_PlaceSpec C12_BoundModel C12_BoundSpec.
 Open Scope N_scope.
 
 (* three case classes: one execution driven through the operator (input, observation); many
@@ -8,7 +8,10 @@ Definition run_case := (input * observation)%type.
 (* a fourth class: the hooks of a tree of directories, files and symbolic links, found by the real discovery and
    run one after the other by Hook.Run; every hook process reports where it ran (C12_PlaceModel / C12_PlaceSpec) *)
 Inductive case := CRun (c : run_case) | CConc (ci : cinput) (o : cobs) | CWays (w : winput) (o : observation)
-                | CPlace (pi : pinput) (os : list pobs1) (bad : bool).
+                | CPlace (pi : pinput) (os : list pobs1) (bad : bool)
+(* a fifth class: one execution driven through the operator whose hook leaves  first document ++ tail  in one of
+   the four output files, the first document of a chosen length (C12_BoundModel / C12_BoundSpec) *)
+                | CBound (b : binput) (o : observation).
 
 (* the model's outcome in the observation's vocabulary; the OS facts are taken from the
    implementation's observation (they are not modelled), and so is the presence of the probe
@@ -175,6 +178,10 @@ Definition agrees_place1 (i : pinput) (o : pobs1) : bool :=
 Definition agrees_place (i : pinput) (os : list pobs1) (bad : bool) : bool :=
   forallb (agrees_place1 i) os && negb bad.
 
+(* ------------------------------------------------------------------ the first-document-and-tail class *)
+Definition model_bound_obs (b : binput) (o : observation) : observation := model_run_obs (input_of b, o).
+Definition agrees_bound (b : binput) (o : observation) : bool := agrees_run (input_of b, o).
+
 Inductive mobs := MRun (o : observation) | MConc (o : cobs) | MPlace (os : list pobs1).
 Definition model_obs (c : case) : mobs :=
   match c with
@@ -182,13 +189,14 @@ Definition model_obs (c : case) : mobs :=
   | CConc ci _ => MConc (model_conc_obs ci)
   | CWays w o => MRun (model_ways_obs (w, o))
   | CPlace i os _ => MPlace (map (model_pobs i) os)
+  | CBound b o => MRun (model_bound_obs b o)
   end.
 Definition agrees (c : case) : bool :=
   match c with CRun c => agrees_run c | CConc ci o => agrees_conc ci o | CWays w o => agrees_ways w o
-  | CPlace i os bad => agrees_place i os bad end.
+  | CPlace i os bad => agrees_place i os bad | CBound b o => agrees_bound b o end.
 Definition holds (c : case) : bool :=
   match c with CRun c => P (fst c) (snd c) | CConc ci o => P_conc ci o | CWays w o => P_ways cls_patch w o
-  | CPlace i os _ => P_place i os end.
+  | CPlace i os _ => P_place i os | CBound b o => P (input_of b) o && P_bound b o end.
 
 Definition mismatches (cs : list case) : list N := indices_where (fun c => negb (agrees c)) cs.
 Definition spec_violations (cs : list case) : list N := indices_where (fun c => negb (holds c)) cs.
